@@ -197,6 +197,9 @@ type Config struct {
 	// Inline: if non-nil, only functions for which it returns true are inlined;
 	// the others become pure call symbols (unless Opaque).
 	Inline func(*ssa.Function) bool
+	// InlineLoops: a function selected by Inline is entered even when its CFG has a loop (paths that
+	// go round the loop more than twice end as "abort" outcomes)
+	InlineLoops bool
 	// SelfBases: pointer bases whose stores are recorded as effects (e.g. "s").
 	SelfBases map[string]bool
 	MaxDepth  int
@@ -790,7 +793,8 @@ func (in *Interp) callResolved(callee *ssa.Function, args []Val, binds []Val, st
 	if !opaque && in.Cfg.Inline != nil && !in.Cfg.Inline(callee) {
 		return ret(Sym{Op: "call", Name: name, Args: args, Ep: st.epoch})
 	}
-	if opaque || callee.Blocks == nil || (in.Cfg.InModule != nil && !in.Cfg.InModule(callee)) || in.HasLoop(callee) || depth >= in.Cfg.MaxDepth {
+	hasLoop := in.HasLoop(callee) && !(in.Cfg.InlineLoops && in.Cfg.Inline != nil)
+	if opaque || callee.Blocks == nil || (in.Cfg.InModule != nil && !in.Cfg.InModule(callee)) || hasLoop || depth >= in.Cfg.MaxDepth {
 		if opaque || callee.Blocks == nil || depth >= in.Cfg.MaxDepth || in.HasLoop(callee) && !isPureLooking(callee) {
 			st.epoch++
 			st.Effects = append(st.Effects, Effect{Kind: "call", What: name, Args: args})
